@@ -136,6 +136,15 @@ def cfgF (std : List (Str × Str)) (checkStd : Bool) : Tracker.Cfg where
   useFallback := true
   fallback := fun path i => fallbackBase ((candsF path).getLast?.getD []) ++ natDigits (i + 1)
 
+/-- the pinned tracker (no validation, no fallback) on top of the repaired `Split` (F1 fixed, F8 not) -/
+def cfgP (std : List (Str × Str)) (checkStd : Bool) : Tracker.Cfg where
+  cands := candsF
+  reserved := fun n path => checkStd && (match std.lookup n with | some p => p != path | none => false)
+  stdNames := std.map (·.1)
+  valid := fun _ => true
+  useFallback := false
+  fallback := fun _ _ => []
+
 /-- `add` of the repaired code -/
 def addF (std : List (Str × Str)) (checkStd : Bool) (t : Tracker.Tracker) (path : Str) : Tracker.Tracker :=
   Tracker.add (cfgF std checkStd) t path
